@@ -80,9 +80,9 @@ StrTexts ==
          Q \o S("a//b") \o Q, Q \o S("a") \o <<10>> \o S("//b") \o Q, Q \o Q, Q \o Q \o Q, Q \o S("a") \o Q \o S("b") \o Q }
 
 \* ---- layout -----------------------------------------------------------------------------
-Seps == << <<32>>, <<9, 10>>, <<13, 10>>, <<160>>, S("//c") \o <<10>>, <<>>, S("//c") \o <<13>>,
+Seps == << <<32>>, <<9, 10>>, <<13, 10>>, <<160>>, S("//c") \o <<10>>, <<>>, S("//c") \o <<13>>, <<11, 12, 133, 8232, 5760, 8287>>,
            S("  ") \o <<10>> \o S("// x y") \o <<13, 10, 32>>, <<12288>>, <<13>>, <<9>> >>
-NSeps == IF N >= 1 /\ N <= Len(Seps) THEN N ELSE 7        \* Family = "layout": N = number of separators used
+NSeps == IF N >= 1 /\ N <= Len(Seps) THEN N ELSE 8        \* Family = "layout": N = number of separators used
 LayoutBases == << <<S("a"), S("+"), S("i1"), S("*"), S("b")>>,
                   <<S("if"), S("a"), S("then"), S("b"), S("else"), S("c")>>,
                   <<S("f"), S("("), S("i1"), S(")")>>,
